@@ -22,6 +22,15 @@ def die(name):
     time.sleep(30)
 
 
+def ident(pid=None):
+    """a process identity that survives pid reuse: pid + start time (field 22 of /proc/<pid>/stat)"""
+    try:
+        st = open("/proc/%s/stat" % (pid or "self")).read().rsplit(")", 1)[1].split()[19]
+    except (OSError, IndexError):
+        return None
+    return "%d:%s" % (pid or os.getpid(), st)
+
+
 class KillOnUnpickle:
     """argument whose unpickling (in the worker) kills the worker"""
     def __init__(self, how): self.how = how
@@ -52,7 +61,7 @@ def task(i, d, mode, how, tag, payload=None):
         else:
             from joblib import Parallel, delayed
             Parallel(n_jobs=2, backend="loky")(delayed(task)(j, d, "inner_block", how, tag + "i") for j in range(2))
-        return (tag, i, pid)
+        return (tag, i, ident())
     if mode == "inner_block":
         open(os.path.join(d, "haschild_%d" % pid), "w").close()
         t0 = time.time()
@@ -71,12 +80,12 @@ def task(i, d, mode, how, tag, payload=None):
     if mode == "big":
         open(os.path.join(d, "sending_%d" % pid), "w").close()
         return b"x" * (60 * 2 ** 20)
-    return (tag, i, pid)
+    return (tag, i, ident())
 
 
 def run_call(p, items, out, name):
     from joblib import delayed
-    t0 = time.time(); rec = {"name": name}
+    t0 = time.time(); rec = {"name": name, "t0": t0}
     res = {}
 
     def target():
@@ -121,6 +130,13 @@ def main():
                 time.sleep(0.001)
         threading.Thread(target=reaper, daemon=True).start()
 
+    def kill_ident(who):
+        """kill the worker with that identity (if its pid still belongs to it)"""
+        pid = int(who.split(":")[0])
+        if ident(pid) != who: return
+        try: os.kill(pid, sig_of(how) or signal.SIGKILL); killed.append([who, time.time()])
+        except OSError: pass
+
     def killer(prefix, count):
         """kill `count` workers that announced themselves with a file <prefix>_<pid>"""
         t0 = time.time(); done = set()
@@ -130,7 +146,8 @@ def main():
                     pid = int(f.rsplit("_", 1)[1])
                     if pid not in done and len(done) < count:
                         if stage == "sending": time.sleep(0.05)
-                        try: os.kill(pid, sig_of(how) or signal.SIGKILL); done.add(pid); killed.append(pid)
+                        who = ident(pid)
+                        try: os.kill(pid, sig_of(how) or signal.SIGKILL); done.add(pid); killed.append([who, time.time()])
                         except OSError: done.add(pid)
             time.sleep(0.005)
     p = Parallel(n_jobs=nj, backend="loky", **({"pre_dispatch": 1} if stage == "cold_single" else {"pre_dispatch": "all"} if stage == "big_args" else {"batch_size": 1} if stage in ("has_child", "has_nested") else {}))
@@ -165,9 +182,8 @@ def main():
                 time.sleep(2.5)
                 return _o(self, broken)
             pe._ExecutorFlags.flag_as_broken = slow_flag
-            for pid in (a.get("pids") or [])[:victims]:
-                try: os.kill(pid, sig_of(how) or signal.SIGKILL); killed.append(pid)
-                except OSError: pass
+            for who in (a.get("pids") or [])[:victims]:
+                kill_ident(who)
             time.sleep(0.5)
             items = [(i, d, "ok", how, "B") for i in range(n)]
         elif stage == "big_args":
@@ -182,15 +198,13 @@ def main():
 
             def late_kill():
                 time.sleep(sc.get("delay", 0.0))
-                for pid in pids:
-                    try: os.kill(pid, sig_of(how) or signal.SIGKILL); killed.append(pid)
-                    except OSError: pass
+                for who in pids:
+                    kill_ident(who)
             threading.Thread(target=late_kill, daemon=True).start()
         elif stage == "idle":
             pids = (a.get("pids") or [])[:victims]
-            for pid in pids:
-                try: os.kill(pid, sig_of(how) or signal.SIGKILL); killed.append(pid)
-                except OSError: pass
+            for who in pids:
+                kill_ident(who)
             time.sleep(0.3)
             items = [(i, d, "ok", how, "B") for i in range(n)]
         elif stage in ("has_child", "has_nested"):
